@@ -8,16 +8,23 @@ drv_files ops (not verified; exercised on every line):
   files copy     <chunk> <hex>
   files over <upload|download> <chunk> <filter> <T|F> <dst: - | tree> <src tree>   (destination may exist)
 
-tree:   F<hex> regular file · X neither file nor directory · D( n<hexname> <tree> ... )
-filter: N none · S<hex> reject names ending with · P<hex> reject names starting with · A reject all
+tree:   F<hex> regular file · X neither file nor directory · D( n<name> <tree> ... ), name = code points in hex
+        separated by dots (lone surrogates allowed)
+filter: N none · S<name> reject names ending with · P<name> reject names starting with · A reject all ·
+        Z a falsy callable that would reject all
 result: ok <tree> | ok - (nothing created) | err <name>
 -/
 namespace Rpyc.Drv
 open Rpyc Rpyc.Files
 
-def asciiString (bs : Bytes) : String := String.ofList (bs.map Char.ofNat)
+/-- a name: code points in hex separated by dots (`61.2e.dcff`); the empty name is `-` -/
+def parseName (cs : List Char) : Option Name :=
+  if cs = ['-'] then some [] else ((String.ofList cs).splitOn ".").mapM (fun t => parseHexNat t.toList)
 
-def hexOfString (s : String) : String := toHex (s.toList.map Char.toNat)
+def hexNat (n : Nat) : String :=
+  if n < 16 then String.ofList [hexChar n] else hexNat (n / 16) ++ String.ofList [hexChar (n % 16)]
+
+def showName (n : Name) : String := if n.isEmpty then "-" else ".".intercalate (n.map hexNat)
 
 partial def parseTree : List String → Option (Tree × List String)
   | [] => none
@@ -34,10 +41,10 @@ where
     | tok :: rest =>
       match tok.toList with
       | 'n' :: cs =>
-        match parseHexGo cs #[], parseTree rest with
+        match parseName cs, parseTree rest with
         | some nm, some (t, r) =>
           match parseEntries r with
-          | some (es, r') => some (.cons (asciiString nm.toList) t es, r')
+          | some (es, r') => some (.cons nm t es, r')
           | none => none
         | _, _ => none
       | _ => none
@@ -49,18 +56,21 @@ partial def showTree : Tree → String
   | .dir es => "D( " ++ showEntries es ++ ")"
 partial def showEntries : Entries → String
   | .nil => ""
-  | .cons n t rest => "n" ++ hexOfString n ++ " " ++ showTree t ++ " " ++ showEntries rest
+  | .cons n t rest => "n" ++ showName n ++ " " ++ showTree t ++ " " ++ showEntries rest
 end
 
+/-- the `filter` argument: `N` None · `A` a callable rejecting everything · `Z` a *falsy* callable rejecting
+everything · `S<name>` / `P<name>` callables rejecting names with that suffix / prefix -/
 def parseFilter (tok : String) : Option Filter :=
   match tok.toList with
-  | ['N'] => some none
-  | ['A'] => some (some (fun _ => false))
-  | 'S' :: cs => (parseHexGo cs #[]).map (fun b => some (fun n => !n.endsWith (asciiString b.toList)))
-  | 'P' :: cs => (parseHexGo cs #[]).map (fun b => some (fun n => !n.startsWith (asciiString b.toList)))
+  | ['N'] => some (effective none)
+  | ['A'] => some (effective (some ⟨true, fun _ => false⟩))
+  | ['Z'] => some (effective (some ⟨false, fun _ => false⟩))
+  | 'S' :: cs => (parseName cs).map (fun s => effective (some ⟨true, fun n => !s.isSuffixOf n⟩))
+  | 'P' :: cs => (parseName cs).map (fun s => effective (some ⟨true, fun n => !s.isPrefixOf n⟩))
   | _ => none
 
-def showOutcome : Except Err (Option Tree) → String
+def showOutcome : Except FErr (Option Tree) → String
   | .ok (some t) => "ok " ++ showTree t
   | .ok none => "ok -"
   | .error e => "err " ++ e.name
